@@ -121,8 +121,11 @@ class ComputationCache:
             self.invalidate_cache()
             # Compute those values in which we are interested.
             comp(only)
-            # Mark individual as no longer changed.
-            self._chromosome.changed = False
+            if only is not None or funcs:
+                # Mark individual as no longer changed.  If there was nothing to
+                # compute, nothing looked at the individual's current state (in
+                # particular, no test was re-executed), so it stays changed.
+                self._chromosome.changed = False
         elif len(cache) != len(funcs):
             # The individual has not changed, but not all values are cached.
             # So we might have to compute the missing ones.
